@@ -533,7 +533,7 @@ def run(ctx: Any, prog: Program) -> None:
             for d_ in ast.walk(dz):
                 if isinstance(d_, ast.Dict):
                     for k_, v_ in zip(d_.keys, d_.values):
-                        if isinstance(k_, ast.Constant) and k_.value == 'dict_size' and dotted(v_) == nm:
+                        if isinstance(k_, ast.Constant) and k_.value == 'dict_size' and any(isinstance(x_, ast.Name) and x_.id == nm for x_ in ast.walk(v_)):
                             return 'dict_size'
                 if isinstance(d_, ast.BinOp) and isinstance(d_.op, (ast.Mod, ast.FloorDiv)) and dotted(d_.left) == nm and isinstance(d_.right, ast.Constant) and d_.right.value == 9:
                     return 'props'
@@ -546,22 +546,24 @@ def run(ctx: Any, prog: Program) -> None:
             return 'comp_size'
         rnames = [lz_role(n_) for n_ in rnames_raw]
         ctx.shape('C10.B10', sorted(rnames) == ['comp_size', 'dict_size', 'props', 'sig', 'uncomp_size'], bf_, unp[0], f'the five header fields of decompress_lzma are told apart by their use (got {rnames})', func='decompress_lzma', text='lzma header roles')
-        hdr = dict(zip(rnames, packs_[0].args))
-        # dict_size: the header value is the filter's own entry
-        ds = hdr.get('dict_size')
-        same = ds is not None and isinstance(ds, ast.Subscript) and dotted(ds.value) == filt_name and isinstance(ds.slice, ast.Constant) and ds.slice.value == 'dict_size'
-        ctx.check('C10.B10', same, bf_, ds if ds is not None else packs_[0], f'the header stores `{U(ds) if ds is not None else "?"}` as dictionary size, but the stream is encoded with `{filt_name}[\'dict_size\']`: '
-                  'decompress_lzma builds its decoder from the header, and a dictionary smaller than the distances used in the stream makes the lump undecodable ("Corrupt input data")', func='compress_lzma', text='header dict_size is the encoder\'s')
-        # props: (pb * 5 + lp) * 9 + lc of the same filter
-        pr = hdr.get('props')
-        pdef = next((a.value for a in ast.walk(cz) if isinstance(a, ast.Assign) and isinstance(pr, ast.Name) and dotted(a.targets[0]) == pr.id), pr)
-        psrc = U(pdef).replace(' ', '') if pdef is not None else ''
-        want = f"({filt_name}['pb']*5+{filt_name}['lp'])*9+{filt_name}['lc']"
-        ctx.check('C10.B10', psrc == want, bf_, pdef if pdef is not None else packs_[0], f'props byte is `{psrc}`; the decoder splits it as lc = p % 9, lp = (p // 9) % 5, pb = (p // 9) // 5, i.e. it must be `{want}`', func='compress_lzma', text='header props formula')
-        dsrc = U(dz)
-        ctx.shape('C10.B10', ('lc = props % 9' in dsrc and 'props //= 9' in dsrc and 'pb = props // 5' in dsrc and 'lp = props % 5' in dsrc) or ('props, lc = divmod(props, 9)' in dsrc and 'pb, lp = divmod(props, 5)' in dsrc), bf_, dz, 'decompress_lzma splits props as lc = p % 9; p //= 9; pb = p // 5; lp = p % 5', func='decompress_lzma', text='props split')
-        sizes = (U(hdr.get('uncomp_size')) if hdr.get('uncomp_size') is not None else '', U(hdr.get('comp_size')) if hdr.get('comp_size') is not None else '')
-        ctx.check('C10.B10', sizes[0] == f'len({cz.args.args[0].arg})' and sizes[1].startswith('len('), bf_, packs_[0], f'header sizes are {sizes}: uncompressed length of the input, then length of the encoded stream', func='compress_lzma', text='header sizes')
+        roles_ok = sorted(rnames) == ['comp_size', 'dict_size', 'props', 'sig', 'uncomp_size']
+        hdr = dict(zip(rnames, packs_[0].args)) if roles_ok else {}
+        if roles_ok:
+            # dict_size: the header value is the filter's own entry
+            ds = hdr.get('dict_size')
+            same = ds is not None and isinstance(ds, ast.Subscript) and dotted(ds.value) == filt_name and isinstance(ds.slice, ast.Constant) and ds.slice.value == 'dict_size'
+            ctx.check('C10.B10', same, bf_, ds if ds is not None else packs_[0], f'the header stores `{U(ds) if ds is not None else "?"}` as dictionary size, but the stream is encoded with `{filt_name}[\'dict_size\']`: '
+                      'decompress_lzma builds its decoder from the header, and a dictionary smaller than the distances used in the stream makes the lump undecodable ("Corrupt input data")', func='compress_lzma', text='header dict_size is the encoder\'s')
+            # props: (pb * 5 + lp) * 9 + lc of the same filter
+            pr = hdr.get('props')
+            pdef = next((a.value for a in ast.walk(cz) if isinstance(a, ast.Assign) and isinstance(pr, ast.Name) and dotted(a.targets[0]) == pr.id), pr)
+            psrc = U(pdef).replace(' ', '') if pdef is not None else ''
+            want = f"({filt_name}['pb']*5+{filt_name}['lp'])*9+{filt_name}['lc']"
+            ctx.check('C10.B10', psrc == want, bf_, pdef if pdef is not None else packs_[0], f'props byte is `{psrc}`; the decoder splits it as lc = p % 9, lp = (p // 9) % 5, pb = (p // 9) // 5, i.e. it must be `{want}`', func='compress_lzma', text='header props formula')
+            dsrc = U(dz)
+            ctx.shape('C10.B10', ('lc = props % 9' in dsrc and 'props //= 9' in dsrc and 'pb = props // 5' in dsrc and 'lp = props % 5' in dsrc) or ('props, lc = divmod(props, 9)' in dsrc and 'pb, lp = divmod(props, 5)' in dsrc), bf_, dz, 'decompress_lzma splits props as lc = p % 9; p //= 9; pb = p // 5; lp = p % 5', func='decompress_lzma', text='props split')
+            sizes = (U(hdr.get('uncomp_size')) if hdr.get('uncomp_size') is not None else '', U(hdr.get('comp_size')) if hdr.get('comp_size') is not None else '')
+            ctx.check('C10.B10', sizes[0] == f'len({cz.args.args[0].arg})' and sizes[1].startswith('len('), bf_, packs_[0], f'header sizes are {sizes}: uncompressed length of the input, then length of the encoded stream', func='compress_lzma', text='header sizes')
     # ---- B6 --------------------------------------------------------------------------------------------
     g_ = bsp.func('ParsedLump.__get__')
     src = U(g_)
